@@ -342,7 +342,7 @@ static void run_one(FILE* real_o, const RunSpec& r, std::mt19937_64& rng, const 
     tt::TTable& tt = the_tt();
     std::string pdesc;
     if (r.tt == "fresh") { tt.clear(); the_scorer().clear(); }
-    tt.updateEpoch(1);
+    if (r.tt != "again") tt.updateEpoch(1);     // "again": a second go without a position command in between (same table epoch)
     if (r.tt == "poison") poison(tt, p, rng, &pdesc);
     RunSpec rr = r;
     if (!rr.searchmoves.empty() && rr.searchmoves[0][0] == '@')
@@ -472,6 +472,7 @@ int cmd_search_runs(const Args& a)
 // lines: fen | legal moves | nmoves | incheck | mate1 | source      (positions with at least one legal move, not drawn)
 std::string random_material_fen(std::mt19937_64& rng, int kind);
 std::string random_attack_fen(std::mt19937_64& rng);
+std::string class_fen_by_index(std::mt19937_64& rng, int k);
 int cmd_pool(const Args& a)
 {
     init_engine();
@@ -512,6 +513,16 @@ int cmd_pool(const Args& a)
         Position p(f);
         emit(p, "sparse");
     }
+    // `classes` positions of every material class template, for either colour of the stronger side
+    for (long round = 0; round < a.i("classes", 0); ++round)
+        for (int k = 0;; ++k)
+        {
+            std::string f = class_fen_by_index(rng, k);
+            if (f == "END") break;
+            if (f.empty()) continue;
+            Position p(f);
+            emit(p, "class");
+        }
     for (long k = 0; k < a.i("attack", 0); ++k)
     {
         std::string f = random_attack_fen(rng);
